@@ -318,6 +318,8 @@ func GenInput(t *rapid.T, p *Profile) *Input {
 		}
 	}
 	cfg.MaskSites = p.MaskSites
+	// always at least a nanosecond per step: two timers armed at different steps never tie
+	cfg.ClockCreepNs = rapid.SampledFrom([]int64{1, 1, 137, 1000}).Draw(t, "creepNs")
 	if len(fineSiteList) > 0 {
 		cfg.FineSites = genFineSites(t, fineFocus(t, p.Name))
 		cfg.FineHeld = len(cfg.FineSites) > 0 && rapid.Bool().Draw(t, "fineHeld")
